@@ -18,7 +18,7 @@ rm -f "$WT/$PKG/$DEMO"
 echo "demo unchanged exit=$A (want 0); demo with change exit=$B (want !=0); existing tests of $MOD with change exit=$C (want 0)"
 # run my check against the scratch worktree that carries the change (never
 # against /repo itself: other checks may be running from it)
-( cd /verif && VERIF_REPO="$WT" VERIF_BUDGET_S=${BUDGET:-40} ./check "$ID" quick ) > /tmp/me/sv-check-$NAME.log 2>&1; D=$?
+( cd ${VERIF_DIR:-/verif} && VERIF_REPO="$WT" VERIF_BUDGET_S=${BUDGET:-40} ./check "$ID" quick ) > /tmp/me/sv-check-$NAME.log 2>&1; D=$?
 cp /tmp/me/sv-check-$NAME.log /tmp/me/sv-check.log
 git -C /repo worktree remove --force "$WT"
 rm -rf /verif/build/work-$(echo "$WT" | md5sum | cut -c1-8)
